@@ -386,9 +386,31 @@ def gen_cases(prop, tier, seed):
     # the regression corpus does not use up the quota of generated bases
     yield from sched.enum_cases(prop, HARNESS, bases, tier, os.path.join(common.BUILD, "sched-c12"),
                                 want=(4 if tier == "quick" else 8) + ncorpus)
+    # a worker that cannot be started (pthread_create fails) is outside the stated contract as far as item completion goes, but the pool's
+    # bookkeeping must survive it: with another worker draining the queue, a later release must still free the pool (oracle only; the LTS
+    # does not model the failure, so these runs are not replayed through it)
+    frng = random.Random(seed * 7919 + 1313)
+    for i in range(40 if tier == "quick" else 400):
+        yield (f"failgrow-{i}", gen_failgrow(frng))
     for i in range(n):
         fam = fams[i % len(fams)]
         yield (f"{fam}-{i}", gen_scenario(rng, fam))
+
+
+def gen_failgrow(rng):
+    mx = rng.choice([2, 2, 3])
+    nx = rng.choice([2, 3, 4])
+    L = [f"cfg seed={rng.randrange(1, 10**6)} stay={rng.choice([30, 55, 80])} failcreate={rng.choice([2, 2, 3])}", "thread 0",
+         f"obj pool p0 max={mx}" + (" hooks" if rng.random() < 0.5 else "")]
+    L += [f"obj work x{i}" for i in range(nx)] + ["obj timer t0", "obj timer t1"]
+    subs = [f"submit p0 x{i}" for i in range(nx)]
+    cut = rng.randrange(1, nx + 1)
+    L.append("do poolcreate p0 ; " + " ; ".join(subs[:cut]) + f" ; trel t0 {rng.choice([1000, 1000000, 20000000000])} ; trel t1 {rng.choice([500, 2000000])}")
+    if subs[cut:]:
+        L.append("on t1 1 : " + " ; ".join(subs[cut:]))
+    L.append("on t0 1 : put p0")
+    L.append("main")
+    return L
 
 
 # ---------------------------------------------------------------- implementation-only oracle
@@ -422,6 +444,7 @@ def oracle(log, scenario=(), want=("C12", "C13")):
     mainret, quitters = {}, set()
     in_api_create = {}
     inconclusive = False
+    create_failed = False
     ended = None
     evreg, in_main = {}, set()
     detached_by = {}
@@ -477,8 +500,11 @@ def oracle(log, scenario=(), want=("C12", "C13")):
         elif k == "IH" and w[1].startswith("tn:") and w[2] == "begin":
             tn_pending.discard(w[1][3:])
             in_tn[t] = [w[1][3:], False]
-        elif k in ("THREAD-CREATE", "THREAD-CREATE-FAILED") and t in in_tn:
-            in_tn[t][1] = True
+        elif k in ("THREAD-CREATE", "THREAD-CREATE-FAILED"):
+            if t in in_tn:
+                in_tn[t][1] = True
+            if k == "THREAD-CREATE-FAILED":
+                create_failed = True
         elif k == "IH" and w[1].startswith("tn:") and w[2] == "end":
             p, created = in_tn.pop(t, [w[1][3:], True])
             kv = last_snap.get(p, {})
@@ -632,6 +658,18 @@ def oracle(log, scenario=(), want=("C12", "C13")):
             if not any(o == t for o in pool_owner.values()) and not any(c == t for c in dead_creator.values()):
                 continue
             bad("mainret:missing", f"iv_main of T{t} never returned although every pool it owned was released and every thread it created was joined (run ended {ended})")
+    if create_failed and ended in ("QUIESCENT", "ALLDONE", "FIN"):
+        # a failed attempt to start a worker makes item completion inconclusive (outside the stated contract), but not the release: a pool
+        # that was put, whose workers have all exited and none of whose items is outstanding must have dropped its events
+        for p in pool_put:
+            if p in pool_freed or pool_owner.get(p) in quitters:
+                continue
+            if any(wp == p and t not in exited for t, wp in worker_pool.items()):
+                continue
+            if any(it["pool"] == p and not it.get("completed") for it in item.values()):
+                continue
+            bad("put:not-freed", f"pool {p} was put, all its workers have exited and no item is outstanding, but it never released its events "
+                f"(after a failed attempt to start a worker; run ended {ended})")
     return v
 
 
@@ -718,6 +756,8 @@ def one_case(args):
     viol, out = impl_fails(lines)
     if viol:
         return name, lines, viol, [], {}, out
+    if "THREAD-CREATE-FAILED" in out:
+        return name, lines, [], [], {}, out      # not modelled (see gen_failgrow): judged by the oracle alone
     div, cov, _ = replay_model(out)
     return name, lines, [], div, cov, out
 
